@@ -557,7 +557,7 @@ def mask : List Nat → Nat
 end Impl.Bits
 
 /-! ## //encoding.csv: syntax/std_encoding_csv.go over encoding/csv (default configuration:
-Comma ',', no comment character, no TrimLeadingSpace, no LazyQuotes, FieldsPerRecord 0, UseCRLF false).
+Comma `sep` (',' by default; any valid delimiter), no comment character, no TrimLeadingSpace, no LazyQuotes, FieldsPerRecord 0, UseCRLF false).
 Text is a list of code points (UTF-8 is transparent to every rule below). -/
 namespace Impl.Csv
 
@@ -566,31 +566,31 @@ def isSpace (c : Nat) : Bool :=
   c = 0x2028 || c = 0x2029 || c = 0x202F || c = 0x205F || c = 0x3000
 
 /-- `(*Writer).fieldNeedsQuotes` -/
-def needsQuotes (f : Key) : Bool :=
+def needsQuotes (sep : Nat) (f : Key) : Bool :=
   if f.isEmpty then false
   else if f = [92, 46] then true
-  else if f.any (fun c => c = 10 || c = 13 || c = 34 || c = 44) then true
+  else if f.any (fun c => c = 10 || c = 13 || c = 34 || c = sep) then true
   else isSpace (f.headD 0)
 
 def escField : Key → Key
   | [] => []
   | c :: r => if c = 34 then 34 :: 34 :: escField r else c :: escField r
 
-def writeField (f : Key) : Key := if needsQuotes f then 34 :: (escField f ++ [34]) else f
+def writeField (sep : Nat) (f : Key) : Key := if needsQuotes sep f then 34 :: (escField f ++ [34]) else f
 
-def writeFields : List Key → Key
+def writeFields (sep : Nat) : List Key → Key
   | [] => []
-  | f :: r => 44 :: (writeField f ++ writeFields r)
+  | f :: r => sep :: (writeField sep f ++ writeFields sep r)
 
 /-- `(*Writer).Write` -/
-def writeRecord : List Key → Key
+def writeRecord (sep : Nat) : List Key → Key
   | [] => [10]
-  | f :: r => writeField f ++ writeFields r ++ [10]
+  | f :: r => writeField sep f ++ writeFields sep r ++ [10]
 
 /-- `(*Writer).WriteAll` -/
-def writeAll : List (List Key) → Key
+def writeAll (sep : Nat) : List (List Key) → Key
   | [] => []
-  | r :: rs => writeRecord r ++ writeAll rs
+  | r :: rs => writeRecord sep r ++ writeAll sep rs
 
 inductive Mode
   | sor   -- at the start of a record (nothing read yet on this line)
@@ -629,40 +629,40 @@ def St.endRecord (s : St) : St :=
     else s.fail
 
 /-- one character other than the '\r' of a "\r\n" pair -/
-def feed (s : St) (c : Nat) : St :=
+def feed (sep : Nat) (s : St) (c : Nat) : St :=
   match s.mode with
   | .bad => s
   | .sor =>
     if c = 10 then s                                       -- empty line: skipped
     else if c = 34 then { s with mode := .inq }
-    else if c = 44 then { s.endField with mode := .sof }
+    else if c = sep then { s.endField with mode := .sof }
     else { s with mode := .unq, field := [c] }
   | .sof =>
     if c = 10 then s.endField.endRecord
     else if c = 34 then { s with mode := .inq }
-    else if c = 44 then { s.endField with mode := .sof }
+    else if c = sep then { s.endField with mode := .sof }
     else { s with mode := .unq, field := [c] }
   | .unq =>
     if c = 10 then s.endField.endRecord
     else if c = 34 then s.fail                             -- ErrBareQuote
-    else if c = 44 then { s.endField with mode := .sof }
+    else if c = sep then { s.endField with mode := .sof }
     else { s with field := c :: s.field }
   | .inq =>
     if c = 34 then { s with mode := .qq }
     else { s with field := c :: s.field }
   | .qq =>
     if c = 34 then { s with mode := .inq, field := 34 :: s.field }
-    else if c = 44 then { s.endField with mode := .sof }
+    else if c = sep then { s.endField with mode := .sof }
     else if c = 10 then s.endField.endRecord
     else s.fail                                            -- ErrQuote
 
-def step (s : St) (c : Nat) : St :=
+def step (sep : Nat) (s : St) (c : Nat) : St :=
   if s.cr then
-    if c = 10 then feed { s with cr := false } 10          -- "\r\n" is "\n"
-    else if c = 13 then { feed { s with cr := false } 13 with cr := true }
-    else feed (feed { s with cr := false } 13) c
+    if c = 10 then feed sep { s with cr := false } 10          -- "\r\n" is "\n"
+    else if c = 13 then { feed sep { s with cr := false } 13 with cr := true }
+    else feed sep (feed sep { s with cr := false } 13) c
   else if c = 13 then { s with cr := true }
-  else feed s c
+  else feed sep s c
 
 /-- end of input: a pending '\r' is dropped; an open record is finished -/
 def finish (s : St) : Out (List (List Key)) :=
@@ -675,7 +675,7 @@ def finish (s : St) : Out (List (List Key)) :=
     if s'.mode = .bad then .err else .ok s'.out.reverse
 
 /-- `csv.NewReader(text)` read to `io.EOF` -/
-def parse (text : Key) : Out (List (List Key)) := finish (text.foldl step St.init)
+def parse (sep : Nat) (text : Key) : Out (List (List Key)) := finish (text.foldl (step sep) St.init)
 
 /-- `rel.AsArray` then `Values()` -/
 def asArray : R → Option (List R)
@@ -713,9 +713,9 @@ def matrixOf (v : R) : Option (List (List Key)) :=
   | none => none
 
 /-- `csvEncodeFnBody`: the text written -/
-def encode (v : R) : Out Key :=
+def encode (sep : Nat) (v : R) : Out Key :=
   match matrixOf v with
-  | some m => .ok (writeAll m)
+  | some m => .ok (writeAll sep m)
   | none => .err
 
 /-- the value `csvDecodeFnBody` builds from the records -/
@@ -723,10 +723,10 @@ def matrixR (m : List (List Key)) : R :=
   R.newArray (m.map (fun r => R.newArray (r.map R.newString)))
 
 /-- `csvDecodeFnBody` on the text of its argument (repaired: the empty input is accepted) -/
-def decode (text : Key) : Out R := (parse text).map matrixR
+def decode (sep : Nat) (text : Key) : Out R := (parse sep text).map matrixR
 
 /-- encode, then decode what was written -/
-def roundTrip (v : R) : Out R := (encode v).bind decode
+def roundTrip (sep : Nat) (v : R) : Out R := (encode sep v).bind (decode sep)
 
 end Impl.Csv
 
